@@ -67,7 +67,9 @@ def run_scenario(model: Model, s):
         for sub, ok, detail in results:
             obs.append(Ob("E5-CHAIN", f"{pk}:{sub}", OK if ok else VIOLATED, model.where(f), f"{s.name} [{path}] {sub}",
                           detail if ok else f"{s.func}, scenario {s.name}, path [{path}], {sub}: {detail}"))
-        for ob in o.space.obligations:
+        for ob in getattr(o, "code_obligations", []):
+            if any(w[0] in ob["ctx"] for w in s.waive):
+                continue
             unis.append((s, path, ob))
         for msg in getattr(o, "info", []) or []:
             obs.append(Ob("E5-INFO", f"{pk}:info:{msg[:40]}", INFO, model.where(f), s.name, msg))
@@ -118,8 +120,9 @@ def unification_obligations(model: Model, tier: str):
             if k in seen:
                 continue
             seen.add(k)
-            if u["ok"]:
-                obs.append(Ob("E5-UNIFY", k, OK, u["where"].split(" ")[0], u["where"], f"sizes {u['a']} and {u['b']} coincide (guarded on this path)"))
+            if u["ok"] or u.get("strict"):
+                obs.append(Ob("E5-UNIFY", k, OK, u["where"].split(" ")[0], u["where"], f"sizes {u['a']} and {u['b']} coincide (guarded on this path)" if u["ok"] else
+                              f"sizes {u['a']} and {u['b']} meet in an operation that does not broadcast: torch raises when they differ"))
             else:
                 obs.append(Ob("E5-UNIFY", k, VIOLATED, u["where"].split(" ")[0], u["where"],
                               f"{sc.func} (scenario {sc.name}, path [{path}]): {u['ctx']} identifies sizes {u['a']} and {u['b']} "
